@@ -46,7 +46,7 @@ type joinHandle struct {
 	midList                    func() ([]metav1.Object, error) // IngressPods: services base
 	srcReady, dstReady         <-chan struct{}
 	srcDone, dstDone           <-chan struct{}
-	midDone                    <-chan struct{}
+	midDone, midReady          <-chan struct{}
 	joinReady, joinDone        <-chan struct{}
 	joinClose                  func()
 	drain                      func() []string
@@ -237,7 +237,7 @@ func joinCtors() []joinCtor {
 				return nil, err
 			}
 			h := &joinHandle{srcKind: "ingress", srcList: func() ([]metav1.Object, error) { return toObjs(sc.Cache().List()) }, srcReady: sc.Ready(), srcDone: sc.Done(),
-				midList: func() ([]metav1.Object, error) { return toObjs(mc.Cache().List()) }, midDone: mc.Done()}
+				midList: func() ([]metav1.Object, error) { return toObjs(mc.Cache().List()) }, midDone: mc.Done(), midReady: mc.Ready()}
 			return finishPods(h, dc, j)
 		}},
 	}
@@ -345,7 +345,9 @@ func listSx(f func() ([]metav1.Object, error), src bool) string {
 func (w *joinWorld) observe(closedJoin bool) {
 	h := w.h
 	evs := kv.L(h.drain()...)
-	w.tr.line(kv.L("jobs", kv.Bool(isClosed(h.srcReady)), kv.Bool(isClosed(h.dstReady)), kv.Bool(isClosed(h.joinReady)),
+	// "the sources" of the double join are the ingresses and the services
+	srcReady := isClosed(h.srcReady) && (h.midReady == nil || isClosed(h.midReady))
+	w.tr.line(kv.L("jobs", kv.Bool(srcReady), kv.Bool(isClosed(h.dstReady)), kv.Bool(isClosed(h.joinReady)),
 		kv.Bool(isClosed(h.joinDone)), kv.Bool(isClosed(h.srcDone)), kv.Bool(isClosed(h.dstDone)),
 		listSx(h.joinList, false), evs, listSx(h.dstList, false)))
 	w.tr.stats["obs"]++
@@ -390,9 +392,19 @@ func runJoinScenario(t *testing.T, tr *tracer, idx int, seed uint64) {
 				w.srcEvent(jc.midKind, w.midSrv)
 			}
 		}
-		gated := r.Chance(1, 3)
-		if gated {
-			w.srcSrv.ListGate = make(chan struct{})
+		// one of the servers may hold its first list back; changes keep happening on every side meanwhile
+		// (a source that is ready long before the destination recomputes its filter several times)
+		var gatedSrv *kv.Server
+		switch x := r.Intn(6); {
+		case x == 0:
+			gatedSrv = w.srcSrv
+		case x <= 2:
+			gatedSrv = w.dstSrv
+		case x == 3 && w.midSrv != nil:
+			gatedSrv = w.midSrv
+		}
+		if gatedSrv != nil {
+			gatedSrv.ListGate = make(chan struct{})
 		}
 		log := &kv.Log{Hook: w.hook}
 		h, err := jc.mk(ctx, log, w.srcSrv, w.midSrv, w.dstSrv)
@@ -402,9 +414,21 @@ func runJoinScenario(t *testing.T, tr *tracer, idx int, seed uint64) {
 		w.h = h
 		settle(&w.hookN)
 		w.observe(false)
-		if gated {
+		if gatedSrv != nil {
+			for i := r.Intn(5); i > 0; i-- {
+				switch x := r.Intn(10); {
+				case x < 6:
+					w.srcEvent(jc.srcKind, w.srcSrv)
+				case x < 8 && w.midSrv != nil:
+					w.srcEvent(jc.midKind, w.midSrv)
+				default:
+					w.srcEvent(jc.dstKind, w.dstSrv)
+				}
+				settle(&w.hookN)
+				w.observe(false)
+			}
 			tr.line(kv.L("jrelease"))
-			close(w.srcSrv.ListGate)
+			close(gatedSrv.ListGate)
 			settle(&w.hookN)
 			w.observe(false)
 		}
